@@ -75,6 +75,9 @@ func verifYield(site int) {
 		verifYieldFn(site)
 	}
 }
+
+// VerifSetStmtYieldFn lets a harness in another package install the hook.
+func VerifSetStmtYieldFn(f func(site int)) { verifYieldFn = f }
 `
 
 func stamp(src, pkg string) ([]byte, error) {
@@ -114,6 +117,10 @@ func instrument(path string, funcs []string) ([]byte, int, error) {
 			}
 		case *ast.ForStmt:
 			v.Body.List = doBlock(v.Body.List)
+			if len(v.Body.List) == 0 {
+				// an empty-bodied spin loop ("for cond {}") must still give the scheduler a chance
+				v.Body.List = []ast.Stmt{mk()}
+			}
 		case *ast.RangeStmt:
 			v.Body.List = doBlock(v.Body.List)
 		case *ast.SwitchStmt:
